@@ -75,6 +75,10 @@ NOTES = {
     "C03-f": "(same change as C03-c/C05-c: caught by C05's `norewind_point` plan)",
     "C11-f": "request pairs made in ONE event-loop turn + oracle: both must be served",
     "C13-f": "a second pause landing inside the replay of the command the first interruption cancelled",
+    # round 5 (fresh agents, six properties whose checks had needed the most additions)
+    "C12-g": "library plans (count/scan...): a failed trigger status must arrive before the next checkpoint even when no wait on its group is found; count over detector + trigger-less signal",
+    "C24-g": "family `pseudo_axes`: reset/relative wrappers on the axes of one ophyd PseudoPositioner, first moved at different steps",
+    "C35-g": "stream re-described in mid-run (second descriptor, same name) with legacy frame datums continuing",
 }
 
 
